@@ -29,6 +29,14 @@ def refHistory (parse : Bool → String → P) (compute : R → String × String
   | _, reg, .setStar b :: rest => refHistory parse compute b reg rest
   | star, reg, .register rg f :: rest => refHistory parse compute star (setAt reg rg (f (reg rg))) rest
 
+/-- the smallest call that depends on the registrations: one handler lookup in registry `rg` for
+    an object of exact type `ty`; its outcome is the handler it got -/
+def lookup1 {P H : Type} (rg : Nat) (ty op : String) : Strategy P H (Option H) := fun answers =>
+  match answers with
+  | [] => .inl (.handler rg ty op)
+  | [.handler h] => .inr h
+  | _ => .inr none
+
 /-- size bound of the path cache: at most `_MAX_CACHE + 1` entries per flag -/
 def SizeOK (maxCache : Nat) (c : PathCache P) : Prop := ∀ b, (c.get b).length ≤ maxCache + 1
 
